@@ -324,6 +324,43 @@ def _aggregate(name, V, E, exact_in):
     raise ValueError(name)
 
 
+def apply_fn(name, a, n):
+    """Function `name` applied to the value a (a Val)."""
+    if a.scalar:
+        raise Undefined("function applied to a literal")
+    if name in POINTWISE:
+        out = [_fn_pointwise(name, a.v[i], a.e[i], a.exact) for i in range(n)]
+        return Val([o[0] for o in out], [o[1] for o in out], False, a.exact or name == "SIGN")
+    if name == "D":
+        v = [NAN] + [a.v[i] - a.v[i - 1] for i in range(1, n)]
+        e = [0.0] + [0.0 if a.exact else a.e[i] + a.e[i - 1] + 2 * ulp(v[i]) for i in range(1, n)]
+        for r in v[1:]:
+            _chk(r)
+        return Val(v, e, False, a.exact)
+    if name == "I":
+        v, e = [0.0], [0.0]
+        for i in range(1, n):
+            v.append(_chk(v[-1] + a.v[i]))
+            e.append(0.0 if a.exact else e[-1] + a.e[i] + 2 * ulp(v[-1]))
+        return Val(v, e, False, a.exact)
+    if name == "D2":
+        v = [NAN] * n
+        e = [0.0] * n
+        for i in range(1, n - 1):
+            v[i] = _chk(a.v[i + 1] - 2 * a.v[i] + a.v[i - 1])
+            e[i] = a.e[i + 1] + 2 * a.e[i] + a.e[i - 1] + 4 * ulp(max(abs(a.v[i + 1]), abs(a.v[i]), abs(a.v[i - 1])))
+        return Val(v, e, False, False)
+    if name in AGGREGATES:
+        r, e = _aggregate(name, a.v, a.e, a.exact)
+        _chk(r)
+        exact = (name in ("MIN", "MAX", "ARGMIN", "ARGMAX") and a.exact) or \
+            (name in ("MEDIAN", "MAD") and a.exact and n % 2 == 1)
+        if exact:
+            e = 0.0
+        return Val([r] * n, [e] * n, False, exact)
+    raise Undefined("unknown function " + str(name))
+
+
 def evaluate(node, env, n):
     """-> Val.  env: name -> list of n floats."""
     k = node[0]
@@ -359,42 +396,7 @@ def evaluate(node, env, n):
             return Val(out_v, out_e, a.scalar and b.scalar, True)
         return Val(out_v, out_e, a.scalar and b.scalar, exact and not introduces)
     if k == "fn":
-        name = node[1]
-        a = evaluate(node[2], env, n)
-        if a.scalar:
-            raise Undefined("function applied to a literal")
-        if name in POINTWISE:
-            out = [_fn_pointwise(name, a.v[i], a.e[i], a.exact) for i in range(n)]
-            ex = a.exact or name == "SIGN"
-            return Val([o[0] for o in out], [o[1] for o in out], False, ex)
-        if name == "D":
-            v = [NAN] + [a.v[i] - a.v[i - 1] for i in range(1, n)]
-            e = [0.0] + [0.0 if a.exact else a.e[i] + a.e[i - 1] + 2 * ulp(v[i]) for i in range(1, n)]
-            for r in v[1:]:
-                _chk(r)
-            return Val(v, e, False, a.exact)
-        if name == "I":
-            v, e = [0.0], [0.0]
-            for i in range(1, n):
-                v.append(_chk(v[-1] + a.v[i]))
-                e.append(0.0 if a.exact else e[-1] + a.e[i] + 2 * ulp(v[-1]))
-            return Val(v, e, False, a.exact)
-        if name == "D2":
-            v = [NAN] * n
-            e = [0.0] * n
-            for i in range(1, n - 1):
-                v[i] = _chk(a.v[i + 1] - 2 * a.v[i] + a.v[i - 1])
-                e[i] = a.e[i + 1] + 2 * a.e[i] + a.e[i - 1] + 4 * ulp(max(abs(a.v[i + 1]), abs(a.v[i]), abs(a.v[i - 1])))
-            return Val(v, e, False, False)
-        if name in AGGREGATES:
-            r, e = _aggregate(name, a.v, a.e, a.exact)
-            _chk(r)
-            exact = name in ("MIN", "MAX", "ARGMIN", "ARGMAX") and a.exact or \
-                (name in ("MEDIAN", "MAD") and a.exact and n % 2 == 1)
-            if exact:
-                e = 0.0
-            return Val([r] * n, [e] * n, False, exact)
-        raise Undefined("unknown function " + name)
+        return apply_fn(node[1], evaluate(node[2], env, n), n)
     raise ValueError(node)
 
 
@@ -438,7 +440,7 @@ def eval_rpn(tokens, env, n):
             arg = operand(st.pop())
             f = st.pop()
             f = f.strip() if isinstance(f, str) else f
-            st.append(evaluate(["fn", f, ["_val", arg]], env, n))
+            st.append(apply_fn(f, arg, n))
         elif t == "=":
             val = operand(st.pop())
             name = st.pop()
@@ -448,64 +450,6 @@ def eval_rpn(tokens, env, n):
     if len(st) != 1:
         raise ValueError("rpn: stack %r" % (st,))
     return ("value", operand(st[0]))
-
-
-_orig_evaluate = evaluate
-
-
-def evaluate(node, env, n):  # noqa: F811  (adds the internal "_val" leaf used by eval_rpn)
-    if node[0] == "_val":
-        return node[1]
-    if node[0] == "fn" and node[2][0] == "_val":
-        # evaluate() of a function whose argument is already a value
-        saved = node[2][1]
-        name = node[1]
-        fake_env = dict(env)
-        fake_env["__arg__"] = saved.v
-        v = _orig_evaluate(["fn", name, ["var", "__arg__"]], fake_env, n) if saved.exact and not saved.scalar else None
-        if v is not None:
-            return v
-        # inexact argument: re-run the function body with the carried errors
-        return _apply_fn_to_val(name, saved, n)
-    return _orig_evaluate(node, env, n)
-
-
-def _apply_fn_to_val(name, a, n):
-    if a.scalar:
-        raise Undefined("function applied to a literal")
-    holder = {"v": a}
-
-    class _Env(dict):
-        pass
-    # reuse the main code path by temporarily monkeypatching a variable lookup
-    env = {"__arg__": a.v}
-    node = ["fn", name, ["var", "__arg__"]]
-    # evaluate with exact=False semantics: emulate by wrapping evaluate of var
-    k = name
-    if k in POINTWISE:
-        out = [_fn_pointwise(k, a.v[i], a.e[i], a.exact) for i in range(n)]
-        return Val([o[0] for o in out], [o[1] for o in out], False, a.exact or k == "SIGN")
-    if k in AGGREGATES:
-        r, e = _aggregate(k, a.v, a.e, a.exact)
-        return Val([r] * n, [e] * n, False, False)
-    if k == "D":
-        v = [NAN] + [a.v[i] - a.v[i - 1] for i in range(1, n)]
-        e = [0.0] + [a.e[i] + a.e[i - 1] + 2 * ulp(v[i]) for i in range(1, n)]
-        return Val(v, e, False, False)
-    if k == "I":
-        v, e = [0.0], [0.0]
-        for i in range(1, n):
-            v.append(v[-1] + a.v[i])
-            e.append(e[-1] + a.e[i] + 2 * ulp(v[-1]))
-        return Val(v, e, False, False)
-    if k == "D2":
-        v = [NAN] * n
-        e = [0.0] * n
-        for i in range(1, n - 1):
-            v[i] = a.v[i + 1] - 2 * a.v[i] + a.v[i - 1]
-            e[i] = a.e[i + 1] + 2 * a.e[i] + a.e[i - 1] + 4 * ulp(max(abs(a.v[i + 1]), abs(a.v[i]), abs(a.v[i - 1])))
-        return Val(v, e, False, False)
-    raise Undefined("unknown function " + str(name))
 
 
 def close(got, val, i):
